@@ -105,7 +105,13 @@ func (s *session) loopWrite() {
 		case req = <-s.processingReqs:
 		}
 
-		req.Wait()
+		// the answer may never come (a backend that stays silent): do not outlive
+		// the connection for it, or Stop, which waits for the sessions, never ends.
+		select {
+		case <-req.done:
+		case <-s.quit:
+			return
+		}
 		// TODO(kirk91): abstract response
 		resp := req.Response()
 		if err = s.enc.Encode(resp); err != nil {
